@@ -289,7 +289,20 @@ def main(run):
         pos_to = np.array([[float(x) for x in p] for p in pos], dtype="double", order="C")
         pos_from = np.array(pos_to[:nfrom], dtype="double", order="C")
         # ---------------- implementation, both storage formats
-        sp = quiet(ShortestPairs, basis, pos_to, pos_from, store_dense_svecs=True, symprec=SYMPREC)
+        try:
+            sp = quiet(ShortestPairs, basis, pos_to, pos_from, store_dense_svecs=True, symprec=SYMPREC)
+        except AssertionError:
+            # _transform_cell_basis asserts that float inv() of the integer change of basis is integral to 1e-8;
+            # for extreme shears (entries of the change of basis in the hundreds) rounding alone breaks that.
+            red0 = C.get_reduced_bases(basis, tolerance=SYMPREC)
+            tm0 = np.rint(basis @ np.linalg.inv(red0))
+            if np.abs(tm0).max() > 64:
+                run.count("extreme shear (|change of basis| > 64): implementation's float-inverse assertion fires; rejected, not mis-built")
+                continue
+            run.violation("get_smallest_vectors(store_dense_svecs=True)", "valid-lattice-rejected",
+                          "AssertionError in _transform_cell_basis for a moderate change of basis (max entry %d)" % np.abs(tm0).max(),
+                          dict(lattice=lat["name"], basis=basis.tolist(), positions=[[str(x) for x in p] for p in pos], n_from=nfrom))
+            continue
         dsv, dmu = sp.shortest_vectors, sp.multiplicities
         ssv, smu = quiet(get_smallest_vectors, basis, pos_to, pos_from, store_dense_svecs=False, symprec=SYMPREC)
         lp, sfr, pfr, tmi, red = quiet(sp._transform_cell_basis, "int64")
@@ -405,8 +418,10 @@ def main(run):
             tmat = np.rint(sc.cell @ np.linalg.inv(pr.cell))
             run.case(("prim", name, smat.tolist(), dense), nontrivial=True)
             run.count("Primitive.get_smallest_vectors " + ("dense" if dense else "sparse"))
+            anynear = False
             for k, (vecs, near, mlen) in enumerate(ex):
                 if near:
+                    anynear = True
                     run.count("skipped pair: lengths closer than 1e-3 (tolerance edge)")
                     continue
                 i, j = divmod(k, len(p2s))
@@ -417,6 +432,42 @@ def main(run):
                                   "pair (%d,%d): stored %d vectors, exhaustive enumeration finds %d of length %.6g" % (i, j, m, len(vecs), mlen),
                                   dict(cell=name, supercell_matrix=smat.tolist(), dense=dense, pair=[i, j]))
                     break
+            # correspondence with the model (exact Gram matrix and positions recovered from the prototype)
+            if anynear or not dense:
+                continue
+            Gf = sc.cell @ sc.cell.T
+            Gx = [[Fr(float(x)).limit_denominator(100000) for x in r] for r in Gf]
+            px = [[Fr(float(x)).limit_denominator(1200) for x in r] for r in sc.scaled_positions]
+            if np.abs(ffloat(Gx) - Gf).max() > 1e-10 * np.abs(Gf).max() or np.abs(ffloat(px) - sc.scaled_positions).max() > 1e-12:
+                run.count("Primitive path: Gram matrix/positions not recoverable as small rationals (model skipped)")
+                continue
+            spx = quiet(ShortestPairs, sc.cell, sc.scaled_positions, sc.scaled_positions[p2s], store_dense_svecs=True, symprec=SYMPREC)
+            lp, sfr, pfr, tmi, redb = quiet(spx._transform_cell_basis, "int64")
+            tmi = np.array(tmi, dtype=int)
+            tm = np.rint(np.linalg.inv(tmi)).astype(int)
+            Gred = fmul(fmul(tmi.tolist(), Gx), ftr(tmi.tolist()))
+            exact_to = []
+            okp = True
+            for pp, fl in zip(px, sfr):
+                e = [sum(Fr(pp[m]) * int(tm[m][l]) for m in range(3)) for l in range(3)]
+                sh = [round(float(e[l]) - fl[l]) for l in range(3)]
+                e = [e[l] - sh[l] for l in range(3)]
+                okp = okp and max(abs(float(e[l]) - fl[l]) for l in range(3)) < 1e-9
+                exact_to.append(e)
+            if not okp:
+                run.count("Primitive path: reduced positions not recoverable (model skipped)")
+                continue
+            exact_from = [exact_to[k] for k in p2s]
+            Ttot = (tmat.T.astype(int)) @ tmi.T
+            info = dict(cell=name, supercell_matrix=smat.tolist(), path="Primitive.get_smallest_vectors")
+            lines.append("pd " + qs(flat(Gred)))
+            meta.append(("pd", info, None))
+            lines.append("svecs %s %s %d %s %d %d %s %s" % (qs(flat(Gred)), ints(Ttot), len(lp), ints(lp), len(exact_to), len(exact_from),
+                                                           qs(flat(exact_to)), qs(flat(exact_from))))
+            smu0 = np.array(mu[:, :, 0], dtype="intc")
+            ssv0, _ = dense_to_sparse_svecs(sv, mu)
+            meta.append(("svecs", info, (sv, mu, ssv0, smu0, 10.0)))
+            run.count("Primitive.get_smallest_vectors vs model")
 
     # ------------------------------------------------------------ the model
     out = common.lean_run_driver("C05", lines)
